@@ -1,14 +1,26 @@
 #!/bin/bash
-# developer tool: behaviour-preserving refactors must keep every check silent
-cd /repo || exit 2
-if [ -n "$(git status --porcelain --untracked-files=no)" ]; then echo "/repo dirty"; exit 2; fi
+# developer tool: behaviour-preserving refactors must keep every check silent.  Works in N scratch worktrees of /repo's
+# HEAD (removed at the end); /repo itself is never patched.   usage: refactors.sh [glob] [workers]
+PAT="${1:-*}"; N="${2:-8}"
 ALL="C01 C02 C03 C04 C05 C06 C07 C08 C09 C10 C11 C12 C13 C14 C15 C16 C17 C18 C19"
-rc=0
-for p in /verif/refactors/*.patch.diff; do
-  git apply $p || { echo "$(basename $p) does-not-apply"; continue; }
-  res=$(cd /verif && ./plv multi $ALL 2>&1 | grep -E "^C[0-9]+ (VIOLATION|ERROR)" | cut -c1-120 | tr '\n' ';')
-  git checkout -- .
-  echo "$(basename $p .patch.diff): ${res:-silent}"
-  [ -n "$res" ] && rc=1
-done
+MX=/tmp/plvrf; rm -rf $MX; mkdir -p $MX; git -C /repo worktree prune
+ids=(); for p in /verif/refactors/*.patch.diff; do id=$(basename $p .patch.diff); [[ "$id" == $PAT ]] && ids+=("$id"); done
+worker() {
+  k=$1; wt=$MX/w$k
+  git -C /repo worktree add --detach -f $wt HEAD >/dev/null 2>&1 || { echo "worktree $k failed"; return; }
+  i=0
+  for id in "${ids[@]}"; do
+    i=$((i+1)); [ $(( i % N )) -eq $k ] || continue
+    if ! git -C $wt apply /verif/refactors/$id.patch.diff 2>/dev/null; then echo "$id: does-not-apply" >> $MX/rows.$k; continue; fi
+    res=$(cd /verif && PLV_REPO=$wt PLV_WORK_TAG=-rf$k ./plv multi $ALL 2>&1 | grep -E "^C[0-9]+ (VIOLATION|ERROR)" | cut -c1-160 | tr '\n' ';')
+    git -C $wt checkout -- . ; git -C $wt clean -fdq
+    echo "$id: ${res:-silent}" >> $MX/rows.$k
+  done
+  git -C /repo worktree remove --force $wt
+  rm -rf /verif/.work/*-rf$k
+}
+for k in $(seq 0 $((N-1))); do worker $k & done; wait
+cat $MX/rows.* | sort
+rc=0; cat $MX/rows.* | grep -qv ": silent$" && rc=1
+rm -rf $MX; git -C /repo worktree prune
 exit $rc
